@@ -453,7 +453,7 @@ class MoveGen:
                      "dynamic_call": 0.0, "dead_effect": 0.0, "wrong_kind": 0.0, "alias_subs": 0.0,
                      "devfn_param": 0.0, "loop_return": 0.0, "twin_devs": 0.0,
                      "look_kinds": ("trap", "special", "intC", "floatC"), "kernel_lookup": 0.0,
-                     "grid_literals": 0.0}
+                     "grid_literals": 0.0, "kernel3": 0.0}
         if feat:
             self.feat.update(feat)
         self.counter = 0
@@ -746,6 +746,29 @@ class MoveGen:
         body = self.with_devs(env, kernels) if self.feat["devcalls"] else []
         nested = {}
         body += self.block(env, 2, False, self.rng.randrange(2, 7))
+        if self.feat["devcalls"] and self.rng.random() < self.feat["kernel3"]:
+            # a traced kernel with two parameters of one type, called with constant operands and every keyword order
+            k3 = {"name": "tk9", "tweezer": True, "params": [("g", "grid.Grid[Any, Any]"), ("n", "int"), ("k", "int")],
+                  "body": [("eff", "set_loc", [("var", "g")]),
+                           ("eff", "turn_on", [L(("sl", None, None, None)), L(("sl", None, None, None))]),
+                           ("eff", "move", [P("shift", ("var", "g"), P("mul", L(Fraction(3, 2)), ("var", "n")),
+                                              P("mul", L(Fraction(1, 2)), ("var", "k")))]),
+                           ("eff", "turn_off", [L(("sl", None, None, None)), L(("sl", None, None, None))])],
+                  "nested": {}, "kinds": ["grid", "int", "int"]}
+            kernels = kernels + [k3]
+            e = P("device_fn", L("tk9"), P("list", L(0), L(1)), P("list", L(0)))
+            if self.rng.random() < 0.3:
+                e = P("reverse", e)
+            calls = []
+            for _ in range(self.rng.randrange(1, 3)):
+                z = ("look", "trap", self.rng.choice(KNOWN["trap"]))
+                nv, kv = L(self.rng.randrange(0, 3)), L(self.rng.randrange(3, 6))
+                shape = self.rng.choice([([z, nv, kv], []), ([z, nv, kv], ["k"]), ([z, nv, kv], ["n", "k"]),
+                                         ([z, kv, nv], ["k", "n"]), ([kv, z, nv], ["k", "g", "n"]), ([nv, kv, z], ["n", "k", "g"])])
+                calls.append(("devcall", ("var", "d9"), shape[0], shape[1]))
+            pos = self.rng.randrange(0, len(body) + 1)
+            body[pos:pos] = calls
+            body.insert(0, ("assign", "d9", e))
         if self.feat["closures"] and self.rng.random() < 0.5:
             # a closure capturing what is in scope now; called directly (and maybe twice)
             cname = self.fresh("inner")
